@@ -236,7 +236,8 @@ static unsigned char *body; static size_t body_len, body_pos;
 
 static void make_body(const char *tok) {
     free(body); body = NULL; body_len = body_pos = 0;
-    if (tok[0] == 'h') body = ltv_unhex(tok + 1, &body_len);
+    if (tok[0] == '-') body = malloc(1);
+    else if (tok[0] == 'h') body = ltv_unhex(tok + 1, &body_len);
     else if (tok[0] == 'r') {
         unsigned long len = 0, seed = 0;
         sscanf(tok + 1, "%lu.%lu", &len, &seed);
